@@ -45,8 +45,7 @@ def spanLow : List Char → List Char × List Char
   | c :: t => if isLow c then (c :: (spanLow t).1, (spanLow t).2) else ([], c :: t)
 
 /-- the `[`…`]` loop of `get_elt` (input = text after the `[`): characters up to and including the first `]`
-that is not the very first character; a missing `]` is an error.  (On `[` at the very end of the string the C loop
-steps over the terminating NUL: undefined behaviour, modelled as an error.) -/
+that is not the very first character; a missing `]` is an error.  (`[` at the very end of the string is an error: since /repo 78dd29d4 the loop tests for the end before consuming.) -/
 def bracket : List Char → Option (List Char × List Char)
   | [] => none
   | c :: t =>
